@@ -16,8 +16,8 @@ ID = "C12"
 CASES = {"quick": 4000, "thorough": 50000}
 FLOOR = {"quick": 3500, "thorough": 45000}
 FLOOR_COUNTERS = {
-    "quick": {"tiny_magnitude_kernels": 180, "normalizer_fits": 1800, "sparse_fits": 1800, "test_kernels_judged": 3500, "weighted_fits": 2000, "estimators_with_a_past": 2500, "fewer_samples_than_active_points": 200, "in_place_entry_points": 3000, "non_default_containers": 1500, "tiny_magnitude_weights": 400, "more_than_2048_samples": 60, "rejected_calls_in_the_history": 1200, "aliased_kernel_arguments": 150},
-    "thorough": {"tiny_magnitude_kernels": 2300, "normalizer_fits": 22000, "sparse_fits": 22000, "test_kernels_judged": 45000, "weighted_fits": 25000, "estimators_with_a_past": 30000, "fewer_samples_than_active_points": 2500, "in_place_entry_points": 40000, "non_default_containers": 20000, "tiny_magnitude_weights": 5000, "more_than_2048_samples": 800, "rejected_calls_in_the_history": 15000, "aliased_kernel_arguments": 2000},
+    "quick": {"refits_on_the_same_array_objects_with_new_contents": 600, "tiny_magnitude_kernels": 180, "normalizer_fits": 1800, "sparse_fits": 1800, "test_kernels_judged": 3500, "weighted_fits": 2000, "estimators_with_a_past": 2500, "fewer_samples_than_active_points": 200, "in_place_entry_points": 3000, "non_default_containers": 1500, "tiny_magnitude_weights": 400, "more_than_2048_samples": 60, "rejected_calls_in_the_history": 1200, "aliased_kernel_arguments": 150},
+    "thorough": {"refits_on_the_same_array_objects_with_new_contents": 7000, "tiny_magnitude_kernels": 2300, "normalizer_fits": 22000, "sparse_fits": 22000, "test_kernels_judged": 45000, "weighted_fits": 25000, "estimators_with_a_past": 30000, "fewer_samples_than_active_points": 2500, "in_place_entry_points": 40000, "non_default_containers": 20000, "tiny_magnitude_weights": 5000, "more_than_2048_samples": 800, "rejected_calls_in_the_history": 15000, "aliased_kernel_arguments": 2000},
 }
 RULE = (
     "case = explicit features F (n 2-30, f 1-8, offset so that centring matters), test features (1-40 rows), weights "
@@ -93,7 +93,7 @@ def _norm_w(w, n):
     return np.full(n, 1.0 / n) if w is None else np.asarray(w, float) / np.sum(w)
 
 
-def _with_a_past(j, case, cls, n, m, label=""):
+def _with_a_past(j, case, cls, n, m, label="", buffers=None):
     """An estimator that was fitted before on another kernel of the same size (weighted, other flags) and then
     re-configured with set_params; only the arguments of the coming fit may matter afterwards."""
     wc, wt = case["with_center"], case["with_trace"]
@@ -106,12 +106,18 @@ def _with_a_past(j, case, cls, n, m, label=""):
     F0 = pr.normal(size=(n0, f0)) * 10.0 ** pr.uniform(-2, 2) + pr.normal(size=f0)
     w0 = pr.uniform(0.05, 3.0, size=n0) if pr.random() < 0.8 else None
     if cls.__name__ == "KernelNormalizer":
-        j.lib("fit:decoy" + label, est.fit, F0 @ F0.T, sample_weight=w0)
+        K0 = F0 @ F0.T
+        j.lib("fit:decoy" + label, est.fit, K0, sample_weight=w0)
         j.lib("transform:decoy" + label, est.transform, F0[: max(1, n0 // 2)] @ F0.T)
+        if buffers is not None and n0 == n:
+            buffers.append(K0)  # the caller keeps one kernel buffer and fills it with the next kernel
     else:
         A0 = pr.normal(size=(m, f0)) * float(np.abs(F0).std()) + F0.mean(axis=0)
-        j.lib("fit:decoy" + label, est.fit, F0 @ A0.T, A0 @ A0.T, sample_weight=w0)
+        K0nm, K0mm = F0 @ A0.T, A0 @ A0.T
+        j.lib("fit:decoy" + label, est.fit, K0nm, K0mm, sample_weight=w0)
         j.lib("transform:decoy" + label, est.transform, F0[: max(1, n0 // 2)] @ A0.T)
+        if buffers is not None and n0 == n:
+            buffers.extend([K0nm, K0mm])
     if hasattr(est, "set_params"):
         j.lib("set_params", est.set_params, with_center=wc, with_trace=wt)
     else:  # SparseKernelCenterer is a plain TransformerMixin: its parameters are public attributes
@@ -135,9 +141,15 @@ def _run_normalizer(case, j):
     if wt and tr <= 1e-9 * mag:
         raise Skip("centred-trace-vanishes")
     s = tr if wt else 1.0
-    est = _with_a_past(j, case, KernelNormalizer, n, n)
+    bufs = []
+    est = _with_a_past(j, case, KernelNormalizer, n, n, buffers=bufs)
     sw = None if w is None else w.copy()
-    j.lib("fit", est.fit, K.copy(), sample_weight=sw)
+    Kin = K.copy()
+    if bufs and bufs[0].shape == K.shape:  # the very array object of the earlier fit, holding the new kernel now
+        Kin = bufs[0]
+        Kin[...] = K
+        j.note("refits_on_the_same_array_objects_with_new_contents")
+    j.lib("fit", est.fit, Kin, sample_weight=sw)
     est = forms.carry(est, case.get("carry", "same"), j)
     if case.get("reject"):
         # a failure in the history: refits with unusable weights are refused; the fitted normaliser stays what it was
@@ -196,7 +208,8 @@ def _run_sparse(case, j):
     if wt and tr <= 1e-9 * max(float(np.einsum("ij,ij->", Knm @ Pm, Knm)) / n, 1e-300):
         raise Skip("centred-nystrom-trace-vanishes")
     s = np.sqrt(tr) if wt else 1.0
-    est = _with_a_past(j, case, SparseKernelCenterer, n, len(Fa))
+    bufs = []
+    est = _with_a_past(j, case, SparseKernelCenterer, n, len(Fa), buffers=bufs)
     if case.get("alias") and len(Fa) <= n and np.array_equal(F[: len(Fa)], Fa):
         # the two kernels are views of ONE kernel matrix (the active points are the first training points)
         Kfull = F @ F.T
@@ -204,6 +217,12 @@ def _run_sparse(case, j):
         j.lib("fit", est.fit, Kn_, Km_, sample_weight=None if w is None else w.copy())
         j.ok("kernels passed as views of one matrix are what they were", np.array_equal(Kfull, F @ F.T))
         j.note("aliased_kernel_arguments")
+    elif bufs and bufs[0].shape == Knm.shape and bufs[1].shape == Kmm.shape:
+        # the very array objects of the earlier fit, holding the new kernels now (pre-allocated buffers)
+        bufs[0][...] = Knm
+        bufs[1][...] = Kmm
+        j.lib("fit", est.fit, bufs[0], bufs[1], sample_weight=None if w is None else w.copy())
+        j.note("refits_on_the_same_array_objects_with_new_contents")
     else:
         j.lib("fit", est.fit, Knm.copy(), Kmm.copy(), sample_weight=None if w is None else w.copy())
     j.note("sparse_fits")
